@@ -78,6 +78,7 @@ class FnBlock:
         self.nolabel = False
         self.novac = False
         self.trait_impl = False
+        self.text = False       # //@text: the function builds a String (R20)
         self.region = None
         self.regionsig = None
         self.region_prelude = None
@@ -171,6 +172,8 @@ def parse_template(lines, flavour):
             cur.optional = True
         elif s == "//@novac":
             cur.novac = True
+        elif s == "//@text":
+            cur.text = True
         elif s == "//@trait-impl":
             cur.trait_impl = True
             cur.novac = True
@@ -791,6 +794,155 @@ def apply_R7b(body, stats):
     return body
 
 
+def split_args(masked, text):
+    """top-level comma split of an argument list text (masked: same length, literals blanked)"""
+    parts, depth, start = [], 0, 0
+    for i, c in enumerate(masked):
+        if c in "([{":
+            depth += 1
+        elif c in ")]}":
+            depth -= 1
+        elif c == "," and depth == 0:
+            parts.append(text[start:i])
+            start = i + 1
+    last = text[start:]
+    if last.strip():
+        parts.append(last)
+    return [x.strip() for x in parts]
+
+
+def fmt_pieces(lit):
+    """a format string literal (source text incl. quotes) -> list of ('lit', source text of the piece) / ('arg',) in
+    order.  Only `{}` placeholders and the escapes `{{` `}}` are accepted; anything else is outside the rule."""
+    if not (len(lit) >= 2 and lit[0] == '"' and lit[-1] == '"'):
+        raise ExtractError("R20: format string is not a plain string literal: %s" % lit[:40])
+    inner = lit[1:-1]
+    out, cur, i = [], "", 0
+    while i < len(inner):
+        c = inner[i]
+        if c == "\\":
+            cur += inner[i:i + 2]
+            i += 2
+            continue
+        if c == "{":
+            if inner[i:i + 2] == "{{":
+                cur += "{"
+                i += 2
+                continue
+            if inner[i:i + 2] == "{}":
+                out.append(("lit", cur))
+                out.append(("arg",))
+                cur = ""
+                i += 2
+                continue
+            raise ExtractError("R20: unsupported placeholder in format string %s" % lit[:40])
+        if c == "}":
+            if inner[i:i + 2] == "}}":
+                cur += "}"
+                i += 2
+                continue
+            raise ExtractError("R20: stray `}` in format string %s" % lit[:40])
+        cur += c
+        i += 1
+    out.append(("lit", cur))
+    return out
+
+
+def apply_R20(sig, body, stats):
+    """R20 (functions marked //@text): a String under construction is the shim DotText (its character sequence);
+    `write!(&mut s, FMT, a, ..).unwrap()`, `writeln!`, `s.push_str(&format!(FMT, a, ..))` and a free-standing
+    `format!(FMT, a, ..)` are split at the `{}` placeholders of the literal FMT into `push_str(piece)` /
+    `push_disp(&(a))` calls in order (what the macros expand to: the pieces and `Display::fmt` of each argument by
+    reference).  Named / positional / formatted placeholders are outside the rule (ExtractError)."""
+    n = 0
+
+    def seq_for(recv, lit, args, newline=False):
+        pcs = fmt_pieces(lit)
+        if sum(1 for x in pcs if x[0] == "arg") != len(args):
+            raise ExtractError("R20: %d placeholders, %d arguments" % (sum(1 for x in pcs if x[0] == "arg"), len(args)))
+        if newline:
+            pcs.append(("lit", "\\n"))
+        calls, ai = [], 0
+        # adjacent literal pieces are merged
+        merged = []
+        for x in pcs:
+            if x[0] == "lit" and merged and merged[-1][0] == "lit":
+                merged[-1] = ("lit", merged[-1][1] + x[1])
+            else:
+                merged.append(x)
+        for x in merged:
+            if x[0] == "lit":
+                if x[1]:
+                    calls.append('%s.push_str("%s");' % (recv, x[1]))
+            else:
+                calls.append("%s.push_disp(&(%s));" % (recv, args[ai]))
+                ai += 1
+        return " ".join(calls)
+
+    def macro_at(m, text, pos):
+        """text[pos] is the `(` of a macro call: -> (end offset after `)`, argument texts)"""
+        close = match_close(m, pos)
+        return close + 1, split_args(m[pos + 1:close], text[pos + 1:close])
+
+    while True:
+        m = mask(body)
+        mm = re.search(r"\b(writeln|write)!\s*\(", m)
+        if mm is None:
+            break
+        end, args = macro_at(m, body, mm.end() - 1)
+        tail = re.match(r"\s*\.\s*unwrap\(\)\s*;", m[end:])
+        rc = re.match(r"&mut\s+([A-Za-z_]\w*)$", args[0]) if args else None
+        if tail is None or rc is None or len(args) < 2:
+            raise ExtractError("R20: write! outside the accepted form `write!(&mut s, \"..\", args).unwrap();`")
+        body = body[:mm.start()] + seq_for(rc.group(1), args[1], args[2:], mm.group(1) == "writeln") + body[end + tail.end():]
+        n += 1
+    while True:
+        m = mask(body)
+        mm = re.search(r"\b([A-Za-z_]\w*)\s*\.\s*push_str\(\s*&\s*format!\s*\(", m)
+        if mm is None:
+            break
+        end, args = macro_at(m, body, mm.end() - 1)
+        tail = re.match(r"\s*\)\s*;", m[end:])
+        if tail is None or not args:
+            raise ExtractError("R20: push_str(&format!(..)) outside the accepted statement form")
+        body = body[:mm.start()] + seq_for(mm.group(1), args[0], args[1:]) + body[end + tail.end():]
+        n += 1
+    k = 0
+    while True:
+        m = mask(body)
+        mm = re.search(r"\bformat!\s*\(", m)
+        if mm is None:
+            break
+        end, args = macro_at(m, body, mm.end() - 1)
+        if not args:
+            raise ExtractError("R20: format! without a format string")
+        k += 1
+        body = body[:mm.start()] + "{ let mut f20_%d = DotText::new(); %s f20_%d }" % (k, seq_for("f20_%d" % k, args[0], args[1:]), k) + body[end:]
+        n += 1
+    # normal form of the literal pieces: a pushed char literal is the one-character string literal, and string literals
+    # pushed by consecutive statements onto the same receiver are one literal (so the grouping of the text into
+    # literals / format strings does not matter within a straight-line run)
+    def char_to_str(mm):
+        c = mm.group(2)
+        c = {'"': '\\"', "\\'": "'"}.get(c, c)
+        return '%s.push_str("%s")' % (mm.group(1), c)
+    body = re.sub(r"\b([A-Za-z_]\w*)\s*\.\s*push\(\s*'((?:\\.|[^'\\])+)'\s*\)", char_to_str, body)
+    rxm = re.compile(r'\b([A-Za-z_]\w*)\.push_str\("((?:\\.|[^"\\])*)"\);\s*\1\.push_str\("((?:\\.|[^"\\])*)"\);')
+    while True:
+        body2 = rxm.sub(lambda mm: '%s.push_str("%s%s");' % (mm.group(1), mm.group(2), mm.group(3)), body, count=1)
+        if body2 == body:
+            break
+        body = body2
+    n += len(re.findall(r"\bString::new\(\)", mask(body)))
+    body = re.sub(r"\bString::new\(\)", "DotText::new()", body)
+    sig2 = re.sub(r"->\s*String\b", "-> DotText", sig)
+    if sig2 != sig:
+        n += 1
+    if n:
+        stats["R20"] = stats.get("R20", 0) + n
+    return sig2, body
+
+
 def apply_R15c(body, stats):
     """bare mode only: a `for` loop whose body still contains `continue` (rejected by Verus) is
     desugared to `let mut it = EXPR.into_iter(); loop { match it.next() { Some(PAT) => {BODY} None => break } }`"""
@@ -924,7 +1076,10 @@ def rewrite_sig(sig, blk, heap_param):
         for bound in ("Display", "Serialize"):
             w = re.sub(r"\+\s*%s\b" % bound, "", w)
             w = re.sub(r"\b%s\s*\+\s*" % bound, "", w)
-        out += "\n    " + norm_ws(w)
+            # a predicate whose only bound it is goes altogether (`N: Display,`)
+            w = re.sub(r"\b[A-Za-z_]\w*\s*:\s*%s\s*(,|$)" % bound, "", w)
+        if norm_ws(w).strip() != "where":
+            out += "\n    " + norm_ws(w)
     return out
 
 
@@ -1103,6 +1258,8 @@ def generate(template_path, flavour, repo="/repo", vacuity=False, rules=None, ba
             sig = re.sub(r"\(\s*mut\s+self\b", "(self", sig, count=1)
             body = "\n        let mut slf = self;" + re.sub(r"(?<![\w.])self\b", "slf", body)
             stats["R14"] = stats.get("R14", 0) + 1
+        if b.text:
+            sig, body = apply_R20(sig, body, stats)
         body = apply_R5(body, stats)
         body = apply_R15d(body, stats)
         body = apply_R15b(body, stats)
